@@ -215,6 +215,12 @@ func (w *world) simOp(t, i int) {
 		return f()
 	})
 	w.recheck[t][i] = re
+	if oe := optsFor(op); oe != nil {
+		if why := oe.check(); why != "" {
+			w.note(t, &Violation{Oracle: "O2", Task: t, Op: i, Kind: op.Kind,
+				What: "an argument changed during the simulated run: " + why})
+		}
+	}
 	if slot >= 0 {
 		w.checkShared(slot, t, t, i, op.Kind, "after the operation returned")
 	}
@@ -294,6 +300,12 @@ func (w *world) soloOp(t, i int) (res string, steps uint64) {
 		steps = zsimrt.CountEnd()
 		if re != nil {
 			w.soloRe = append(w.soloRe, soloRecheck{t, i, res, re})
+		}
+		if oe := optsFor(op); oe != nil {
+			if why := oe.check(); why != "" {
+				w.note(soloSlot, &Violation{Oracle: "O2-solo", Task: t, Op: i, Kind: op.Kind,
+					What: "the call, made alone, modified its argument: " + why})
+			}
 		}
 		if shared && e != nil {
 			after := takeFP(e, true)
@@ -547,6 +559,7 @@ func runScenario(sc *Scenario, r *zsimrt.Rand, replay []zsimrt.Decision) *Outcom
 		}
 	}
 	ensureDrivers(sc.Cold)
+	ensureOpts(sc)
 	if sc.Cold {
 		sim()
 		ensureDrivers(false)
@@ -665,6 +678,13 @@ func runScenario(sc *Scenario, r *zsimrt.Rand, replay []zsimrt.Decision) *Outcom
 			dagProbe[i] = 0
 		}
 	}
+	for t := range sc.Tasks {
+		for i := range sc.Tasks[t] {
+			if sc.Tasks[t][i].Opts != 0 {
+				out.Probes["calls_passing_a_caller_owned_option_slice"]++
+			}
+		}
+	}
 	out.Viol = first
 	out.Digest = h
 	for t := range w.fired {
@@ -736,6 +756,7 @@ func runProbe(p *Probe) string {
 	sc := &Scenario{Tasks: [][]Op{{p.Op}}, MapSeed: 1}
 	w := &world{sc: sc}
 	ensureDrivers(false)
+	ensureOpts(sc)
 	docPool = map[string][]byte{}
 	zsimrt.SetMapSeed(1)
 	res, _ := w.soloOp(0, 0)
